@@ -94,9 +94,14 @@ def prop(spec, rec):
 
     # 1. the law, step by step along a trajectory (each step judged from the actual state before it)
     b = build(spec)
-    for pilot in spec["pilots"]:
+    T_all = T
+    for step, pilot in enumerate(spec["pilots"]):
+        # the period may change from one call to the next (a caller sub-stepping a period)
+        T = spec["periods"][step] if spec.get("periods") else T_all
         before = stored_charge(b)
         labels |= _regime(spec, before, pilot, T)
+        if T != T_all:
+            labels.add("period_changes_between_calls")
         want_charge, want_power = expected(spec, before, pilot, T)
         rate = b.charge(as_given(spec, pilot), as_given(spec, V), as_given(spec, T))
         after = stored_charge(b)
@@ -113,6 +118,7 @@ def prop(spec, rec):
                 require(abs(rate) <= 1e-8 and abs(after - before) <= 1e-8 * V / 1000.0 * T / 60.0 + 1e-12 * cap, "zero_pilot", lambda: "zero pilot delivered rate %r, charge %r -> %r" % (rate, before, after))
                 labels.add("zero_pilot_after_rounding_overshoot")
 
+    T = T_all
     pilot = spec["pilots"][0]
 
     # 2. charging for T equals charging for T/2 twice (exact laws only)
@@ -235,7 +241,20 @@ def cases(draw):
         maxp = float(draw(st.sampled_from([3, 7, 11, 50])))
         T = float(draw(st.sampled_from([1, 5, 7, 15, 60])))
         pilots = [float(draw(st.sampled_from([0, 6, 8, 16, 32, 80]))) for _ in pilots]
+    periods = None
+    how = draw(st.sampled_from(["same", "same", "free", "same_product"]))
+    if not ints and how == "free":
+        periods = [draw(PERIOD) for _ in pilots]
+    elif not ints and how == "same_product" and len(pilots) >= 2 and pilots[0] > 0:
+        # twice the pilot for half the period: the same ampere-minutes, another law
+        periods, p2 = [T], [pilots[0]]
+        for _ in pilots[1:]:
+            f = draw(st.sampled_from([2.0, 0.5, 4.0]))
+            p2.append(p2[-1] * f)
+            periods.append(periods[-1] / f)
+        pilots = p2
     return {
+        "periods": periods,
         "ints": ints,
         "model": draw(st.sampled_from(["ideal", "cont", "cont", "cont", "step"])),
         "cap": cap,
@@ -260,7 +279,7 @@ def subchecks(tier):
             prop,
             quick=4000,
             thorough=600000,
-            floors={"crosses_transition": 0.03, "starts_in_rampdown": 0.1, "cont": 0.205, "ideal": 0.08, "step": 0.051, "integer_arguments": 0.1},
+            floors={"crosses_transition": 0.03, "starts_in_rampdown": 0.1, "cont": 0.205, "ideal": 0.08, "step": 0.051, "integer_arguments": 0.1, "period_changes_between_calls": 0.1},
         )
     ]
 
